@@ -1,5 +1,5 @@
 \* the algorithm of the code ("%04d") on identifiers already printed as %04d:
-\* 4 heads x 7 numbers, collections of <= 3 identifiers, all orders, duplicates
+\* 4 heads x 6 numbers, collections of <= 3 identifiers, all orders, duplicates
 SPECIFICATION Spec
 CONSTANTS
   Heads <- HeadsCanon
